@@ -222,7 +222,8 @@ def collide():
     fid = sx.fresh_int("fid", 0x181, 0x57F)
     data = sx.fresh_bytes("d", 8)
     ts = sx.fresh_int("ts0", 0, 1 << 40)
-    rig.nb.notify(fid, data, ts)
+    # the frame arrives as python-can delivers it: one mutable bytearray handed to every subscriber of the id
+    rig.nb.notify(fid, sx.new_bytearray(sx.items(data)), ts)
     for m, c, old, k in ((m1, c1, old1, 1), (m2, c2, old2, 2)):
         hit = bool(fid == c)
         now = sx.mkbytes(sx.items(m.data))
@@ -237,6 +238,13 @@ def collide():
             sx.prove(m.timestamp is None, "timestamp of an unrelated map changed", "C15/collide/foreign-timestamp")
             sx.reach("collide-miss")
     if bool(c1 == c2) and bool(fid == c1):
+        # both maps received the frame; from now on they are independent again: a value written to a variable of one
+        # map (e.g. to send it on) does not show up in the other
+        nv = sx.fresh_int("nv", 0, 255)
+        v1[0].raw = nv
+        sx.prove(sx.eq_bytes(sx.mkbytes(sx.items(m2.data)), data), "writing to one map changed the other map that "
+                 "received the same frame", "C15/collide/aliased")
+        sx.prove(sx.items(m1.data)[0] == nv, "value written", "C15/collide/written")
         sx.reach("collide-both")
 
 
